@@ -60,6 +60,8 @@ pub struct CaseReport {
     /// known-finding classes this case touched and was excused for
     pub excused: Vec<String>,
     pub note: Option<String>,
+    /// how many evaluations this case stands for (0 = one); fault enumeration counts crash points
+    pub units: u64,
 }
 
 pub struct Spec {
@@ -449,7 +451,7 @@ where
                                     if !in_shrink {
                                         done_cases.fetch_add(1, Ordering::SeqCst);
                                         let mut sh = shared.lock().unwrap();
-                                        sh.evaluations += 1;
+                                        sh.evaluations += rep.units.max(1);
                                         for c in &rep.classes {
                                             *sh.classes.entry(c.clone()).or_insert(0) += 1;
                                         }
